@@ -605,6 +605,7 @@ package fdo
 //@   params s ctx msg
 //@   local complete = extract2:call:fdo.TO2SessionState.Devmod#1
 //@   local deviceInfo = addr:Alloc#1
+//@   local devmod = UnOp#3 | addr:Alloc#3 | extract0:TypeAssert#1 | extract0:TypeAssert#2 | extract0:call:fdo.TO2SessionState.Devmod#1
 //@   local err = call:cbor.Decoder.Decode#1 | call:fdo.TO2SessionState.SetDevmod#1 | call:fdo.TO2SessionState.SetDevmod#2 | call:io.Closer.Close#1 | call:serviceinfo.ChunkWriter.Close#1 | call:serviceinfo.ChunkWriter.WriteChunk#1 | call:serviceinfo.ModulePersister.PersistModule#1 | call:serviceinfo.OwnerModule.HandleInfo#1 | extract1:call:fdo.TO2SessionState.GUID#1 | extract1:call:fdo.VoucherPersistentState.Voucher#1 | extract1:call:io.Copy#1 | extract2:call:serviceinfo.ModuleStateMachine.Module#1 | extract3:call:fdo.TO2SessionState.Devmod#1
 //@   local messageBody = extract1:call:serviceinfo.UnchunkReader.NextServiceInfo#1
 //@   local messageName = extract1:call:strings.Cut#1
@@ -623,6 +624,7 @@ package fdo
 //@   callassert HandleInfo#1: @args u(arg0) == u(module) && u(arg2) == u(messageName) && u(arg3) == u(messageBody)
 //@   callassert produceOwnerServiceInfo#1: @unblocked !deviceInfo.IsMoreServiceInfo
 //@   callassert produceOwnerServiceInfo#1: @module u(arg2) == u(moduleName) && u(arg3) == u(module)
+//@   callassert produceOwnerServiceInfo#1: @modname (dyntype(arg3, "*fdo.devmodOwnerModule") && arg2 == "devmod") || u(arg2) == ModNameOf(u(arg3))
 //@   ensures @blocked ? err == nil && deviceInfo.IsMoreServiceInfo ==> result0 != nil && !result0.IsMoreServiceInfo && !result0.IsDone && len(result0.ServiceInfo) == 0
 
 // devmod on the owner side: complete only with a module list without gaps
@@ -702,3 +704,15 @@ package fdo
 //@   callassert SetXSession#1: @session u(arg2) == u(hello.KexSuiteName) && u(arg3) == u(sess)
 //@   callassert SetProveDeviceNonce#1: @nonce u(arg2) == u(proveDeviceNonce)
 //@   ensures @nonnil err == nil ==> result0 != nil
+
+// a module the device does not implement is represented by the UnknownModule value (the
+// type handleActive tests for): such a module answers inactive (C16)
+//@ func fdo.deviceModuleMap.Lookup
+//@   params fm moduleName
+//@   local known = extract1:Lookup#1
+//@   local module = MakeInterface#1 | Phi#1 | extract0:Lookup#1
+//@   props C16 C10(sweep)
+//@   sweep bounds,panic,nilmem
+//@   modifies nothing
+//@   ensures @unknown ? !known ==> dyntype(result0, "serviceinfo.UnknownModule")
+//@   ensures @known ? known ==> u(result0) == u(module)
